@@ -8,8 +8,9 @@ KEY_SEPS = [47, 46, 124, 233, 8364, 128512]
 
 
 class Program:
-    def __init__(self, pid, t, states):
+    def __init__(self, pid, t, states, only=None, cls=None):
         self.pid, self.t, self.states = pid, t, states
+        self.only, self.cls = only, cls       # dedicated stream: judged only for this property, failures of class cls
         self.nodes = S.nodes(t)
         self.maxd = S.max_depth(t)
         self.rust_ty = S.rust_type(t)
@@ -203,6 +204,14 @@ def payload_for(rng, tid, mode="valid"):
     """JSON text for a leaf of type tid"""
     if mode == "junk":
         return rng.choice(["", "x", "{", "[1", "\"A", "nul", "1 2", "  ", "-", "1.5", "[1,2,3]", "\"Zz\"", "truefalse", "256", "-129"])
+    if mode == "partial":
+        # valid first elements, a later one invalid / missing / surplus (compound leaves only)
+        if tid == 12:
+            return rng.choice(['[7,"x"]', "[7,70000]", "[7]", "[7,8,9]", "[7,-1]", "[7,null]"])
+        if tid == 14:
+            return rng.choice(["[7,2]", "[7]", "[7,null]", "[9,true,1]", "[7,\"true\"]"])
+        mode = "valid"
+        tid = rng.choice([1, 6, 9, 13, 12])
     if tid in S.INT_RANGE:
         lo, hi = S.INT_RANGE[tid]
         v = rng.choice([lo, hi, 0, 1, rng.randint(lo, hi), hi + 1, lo - 1])
